@@ -1,5 +1,182 @@
-import Banyan.Model.Util
-open Banyan
+import Banyan.Model.C17
+open Banyan Banyan.C17
 
-/- stub: model driver for C17 not built yet -/
-def main : IO Unit := runDriver fun _ => "bad-op"
+/-! Line protocol of the C17 model driver (same lines as hooks/banyand/internal/verifdrv/c17):
+
+  rec.<kind>  reorder maxBuf maxGap chunkSize k eager layout script     fixed receiver (fixes/F17A.diff)
+  recL.<kind> …                                                          receiver as written at the pinned commit
+  chunks.<kind> chunkSize k eager layout                                 the sender's chunking
+  snd.<kind>  …                                                          liaison queue model (see checks/C17.py)
+-/
+
+def genContent (seed : Nat) (size : Nat) : List Byte :=
+  let x0 := (seed * 2654435761 + 12345) % 2147483648
+  let rec go : Nat → Nat → List Byte → List Byte
+    | 0, _, acc => acc.reverse
+    | n + 1, x, acc =>
+      let x' := (x * 1103515245 + 12345) % 2147483648
+      go n x' (((x' >>> 16) % 256) :: acc)
+  go size x0 []
+
+def parseFile (s : String) : Option SFile :=
+  match s.splitOn "=" with
+  | [n, sz, sd] => do
+    let size ← sz.toNat?
+    let seed ← sd.toNat?
+    pure ⟨n, genContent seed size⟩
+  | _ => none
+
+def parsePart (s : String) : Option SPart :=
+  -- header and file list are separated by the first ':' (file names may contain ':')
+  let cs := s.toList
+  let hd := String.ofList (cs.takeWhile (· != ':'))
+  let rest := String.ofList ((cs.dropWhile (· != ':')).drop 1)
+  let files : Option (List SFile) := if rest.isEmpty then some [] else (rest.splitOn ",").mapM parseFile
+  match hd.splitOn ".", files with
+  | [ids, pt], some fs => ids.toNat?.map fun id => ⟨id, pt, fs⟩
+  | _, _ => none
+
+def parseLayout (s : String) : Option (List SPart) :=
+  if s == "-" then some [] else (s.splitOn "/").mapM parsePart
+
+def flipBit (bs : List Byte) (bit : Nat) : List Byte :=
+  if bs.isEmpty then bs else
+  let b := bit % (bs.length * 8)
+  bs.set (b / 8) ((bs.getD (b / 8) 0) ^^^ (1 <<< (b % 8)))
+
+def corruptChecksum (s : String) (pos : Nat) : String :=
+  if s.isEmpty then "1" else
+  let cs := s.toList
+  let p := pos % cs.length
+  String.ofList (cs.set p (Char.ofNat ((cs.getD p '0').toNat ^^^ 1)))
+
+def parseTok (cs : List Chunk) (comp : Option Msg) (tok : String) : Option (List Msg) :=
+  if tok == "C" then some (match comp with | some m => [m] | none => []) else
+  let ds := tok.toList.takeWhile Char.isDigit
+  let rest := tok.toList.dropWhile Char.isDigit
+  match (String.ofList ds).toNat? with
+  | none => none
+  | some i =>
+    match cs[i]? with
+    | none => none
+    | some c =>
+      match rest with
+      | [] => some [Msg.chunk c]
+      | 'd' :: a => some [Msg.chunk { c with data := flipBit c.data ((String.ofList a).toNat?.getD 0) }]
+      | 'c' :: a => some [Msg.chunk { c with checksum := corruptChecksum c.checksum ((String.ofList a).toNat?.getD 0) }]
+      | ['v'] => some [Msg.chunk { c with versionOk := false }]
+      | _ => none
+
+def parseScript (cs : List Chunk) (comp : Option Msg) (s : String) : Option (List Msg) :=
+  if s == "-" || s.isEmpty then some [] else
+  ((s.splitOn ",").mapM (parseTok cs comp)).map List.flatten
+
+def hex8 (n : Nat) : String :=
+  let d := Nat.toDigits 16 n
+  String.ofList (List.replicate (8 - d.length) '0' ++ d)
+
+def showIPart (p : IPart) : String :=
+  let fs := p.files.map fun (k, v) => s!"{k.1}/{k.2}:{v.length}:{hex8 (crc32 v)}"
+  s!"{p.id}[{" ".intercalate fs}]"
+
+def showInstalled (l : List IPart) : String :=
+  if l.isEmpty then "-" else ";".intercalate (l.map showIPart)
+
+def showAcks (l : List Nat) : String :=
+  if l.isEmpty then "-" else String.join (l.map toString)
+
+def b01 (b : Bool) : String := if b then "1" else "0"
+
+def showRes : Option SyncResult → String
+  | none => "-"
+  | some r => s!"{b01 r.success}:{r.totalBytes}:{r.chunks}:{r.parts}"
+
+def runRec (legacy : Bool) (f : List String) : String :=
+  match f with
+  | [ro, mb, mg, cs, k, eg, lay, script] =>
+    match mb.toNat?, mg.toNat?, cs.toNat?, k.toNat?, parseLayout lay with
+    | some maxBuf, some maxGap, some cap, some kk, some parts =>
+      let r : Reader := ⟨kk, eg == "1"⟩
+      let chunks := senderChunks cap r parts
+      let comp := if chunks.isEmpty then none else some (Msg.completion chunks.length (totalBytes chunks))
+      match parseScript chunks comp script with
+      | none => "bad-op"
+      | some ms =>
+        let cfg : Cfg := { reorder := ro == "1", maxBuf := maxBuf, maxGap := maxGap, legacy := legacy }
+        let o := recv cfg ms
+        let lg := if o.log.isEmpty then "-" else ",".intercalate o.log
+        s!"n={chunks.length} acks={showAcks o.acks} ret={if o.ok then "ok" else "err"} res={showRes o.result} log={lg} inst={showInstalled o.core.installed} leak=0 disc={o.core.discarded}"
+    | _, _, _, _, _ => "bad-op"
+  | _ => "bad-op"
+
+def showChunk (c : Chunk) : String :=
+  let ps := c.parts.map fun p =>
+    let fs := p.files.map fun fi => s!"{fi.name}@{fi.offset}+{fi.size}"
+    s!"{p.id}.{p.ptype}({",".intercalate fs})"
+  s!"{c.index}:{c.checksum}:{c.data.length}:{b01 c.hasMeta}:{"|".intercalate ps}"
+
+def runChunks (f : List String) : String :=
+  match f with
+  | [cs, k, eg, lay] =>
+    match cs.toNat?, k.toNat?, parseLayout lay with
+    | some cap, some kk, some parts =>
+      let chunks := senderChunks cap ⟨kk, eg == "1"⟩ parts
+      let comp := if chunks.isEmpty then "-" else s!"{totalBytes chunks}:{parts.length}:{chunks.length}"
+      let body := if chunks.isEmpty then "-" else " ".intercalate (chunks.map showChunk)
+      s!"n={chunks.length} comp={comp} {body}"
+    | _, _, _ => "bad-op"
+  | _ => "bad-op"
+
+/-- snd.<kind> batch nodes initial retries copy snapshot
+      batch    = ids joined by ','
+      nodes    = count
+      initial  = per node: 'E' (error) or failed ids joined by '+' ('-' none), nodes joined by ','
+      retries  = triples node:id:attempt that fail, joined by ',' ('-' none)
+      copy     = ids whose copy into failed-parts fails, joined by ',' ('-' none)
+      snapshot = ids in the liaison snapshot before the run -/
+def natList (s : String) (sep : String) : List Nat :=
+  if s == "-" || s.isEmpty then [] else (s.splitOn sep).filterMap String.toNat?
+
+def runSnd (f : List String) : String :=
+  match f with
+  | [batchS, nodesS, initS, retrS, copyS, snapS] =>
+    let batch := natList batchS ","
+    let nn := nodesS.toNat?.getD 0
+    let nodes := (List.range nn).map fun i => s!"n{i}"
+    let inits := initS.splitOn ","
+    let initial (n : String) : SyncAttempt :=
+      match nodes.idxOf? n with
+      | none => .done []
+      | some i =>
+        let t := inits.getD i "-"
+        if t == "E" then .err else .done (natList t "+")
+    let triples := if retrS == "-" then [] else (retrS.splitOn ",").map fun t => natList t ":"
+    let retryFails (n : String) (id attempt : Nat) : Bool :=
+      match nodes.idxOf? n with
+      | none => false
+      | some i => triples.contains [i, id, attempt]
+    let badCopy := natList copyS ","
+    let env : SyncEnv := ⟨nodes, initial, retryFails, fun id => !badCopy.contains id⟩
+    let l : Liaison := ⟨natList snapS ",", []⟩
+    let fates := batch.map fun id =>
+      match partFate env batch id with
+      | .delivered => s!"{id}:D" | .preserved => s!"{id}:P" | .lost => s!"{id}:L"
+    match syncSnapshot env l batch with
+    | none => "err"
+    | some l' =>
+      let sh (x : List Nat) := if x.isEmpty then "-" else ",".intercalate (x.map toString)
+      s!"snap={sh l'.snapshot} failed={sh l'.failedDir} fates={" ".intercalate fates}"
+  | _ => "bad-op"
+
+def handle (line : String) : String :=
+  match words line with
+  | [] => "bad-op"
+  | op :: rest =>
+    match (op.splitOn ".").head! with
+    | "rec" => runRec false rest
+    | "recL" => runRec true rest
+    | "chunks" => runChunks rest
+    | "snd" => runSnd rest
+    | _ => "skip"
+
+def main : IO Unit := runDriver handle
